@@ -42,9 +42,9 @@ KeysFor(B, r) ==
      \cup (IF same = "" THEN {} ELSE {"C02/" \o B \o "/" \o same})
      \cup (IF Len(o.lits) = Len(o.values) /\ \A i \in DOMAIN o.values : LitDenotes(B, lits[i], o.values[i]) THEN {}
            ELSE {"C02/" \o B \o "/inline_literal_does_not_denote_the_bound_value"})
-     \cup (IF o.sql = o.sql_any /\ o.sql = o.collect_sql /\ o.sql = o.collect_any_sql
-              /\ o.values = o.values_any /\ o.values = o.collect_values THEN {} ELSE {"C02/" \o B \o "/entry_points_disagree"})
-     \cup (IF o.inline = o.inline_again /\ o.inline = o.collect_string THEN {} ELSE {"C02/" \o B \o "/inline_entry_points_disagree"})
+     \cup (IF o.sql = o.sql_any /\ o.sql = o.collect_sql /\ o.sql = o.collect_any_sql /\ o.sql = o.collect_any_into_sql
+              /\ o.values = o.values_any /\ o.values = o.collect_values /\ o.values = o.collect_any_into_values THEN {} ELSE {"C02/" \o B \o "/entry_points_disagree"})
+     \cup (IF o.inline = o.inline_again /\ o.inline = o.collect_string /\ o.inline = o.collect_any_into_string THEN {} ELSE {"C02/" \o B \o "/inline_entry_points_disagree"})
      \cup (IF literalMarks THEN {}
            ELSE IF IsPanic(o.inject) THEN {"C11/" \o B \o "/inject_panics"}
            ELSE IF o.inject.r = o.inline THEN {}
